@@ -17,6 +17,7 @@ structure S where
   defs : List (Nat × ActDef) := []
   c : Ctx Nat := {}
   scopedT : List (String × Bool) := []   -- name ↦ done
+  upd : List Nat := []                   -- closures the propagation of the closing transaction will push
 
 def S.lookup (s : S) (i : Nat) : ActDef := ((s.defs.find? (·.1 == i)).map (·.2)).getD {}
 
@@ -44,8 +45,15 @@ def step (s : S) (line : String) : S × String :=
   | ["enter"] => ({ s with c := enter s.c }, observe (enter s.c))
   | ["leave"] =>
     if s.c.depth = 0 then (s, "skip") else
-    let c := leave (qOf s) (bodyOf s) [] 64 s.c
-    ({ s with c := c }, observe c)
+    let c := leave (qOf s) (bodyOf s) s.upd 64 s.c
+    ({ s with c := c, upd := if s.c.depth = 1 then [] else s.upd }, observe c)
+  | "upd" :: is =>
+    -- a node queued for the propagation of the open transaction whose update pushes these closures
+    match nats is with
+    | some is =>
+      if s.c.depth = 0 ∨ is.isEmpty ∨ !(is.all fun i => (s.defs.find? (·.1 == i)).isSome) then (s, "skip")
+      else ({ s with upd := s.upd ++ is }, observe s.c)
+    | none => (s, "bad-op")
   | ["push", i] =>
     match i.toNat? with
     | some i => if (s.defs.find? (·.1 == i)).isSome then
@@ -57,8 +65,9 @@ def step (s : S) (line : String) : S × String :=
   | ["tclose", t] =>
     match s.scopedT.find? (·.1 == t) with
     | some (_, done) =>
-      let (t', c) := Scoped.close { done := done } (qOf s) (bodyOf s) [] 64 s.c
-      ({ s with c := c, scopedT := s.scopedT.map fun p => if p.1 == t then (t, t'.done) else p }, observe c)
+      let (t', c) := Scoped.close { done := done } (qOf s) (bodyOf s) s.upd 64 s.c
+      ({ s with c := c, scopedT := s.scopedT.map fun p => if p.1 == t then (t, t'.done) else p,
+                upd := if !done ∧ s.c.depth = 1 then [] else s.upd }, observe c)
     | none => (s, "skip")
   | _ => (s, "bad-op")
 
